@@ -361,6 +361,19 @@ def contains_atom(v, pred):
     return False
 
 
+def num_call(name, *args):
+    """canonical application of a std numeric method (f64::min, i8::abs, ..): commutative min/max with ordered operands, |p| = |-p|"""
+    args = list(args)
+    if name in ("max", "min") and len(args) == 2 and order_of(vkey(args[0])) > order_of(vkey(args[1])):
+        args = [args[1], args[0]]
+    if name == "abs" and len(args) == 1 and isinstance(args[0], Poly) and len(args[0].t) > 1:
+        # one spelling: the sign that makes the first term (in a fixed order) positive
+        first = min(args[0].t.items(), key=lambda kv: repr(kv[0]))
+        if first[1] < 0:
+            args = [-args[0]]
+    return app(name, *args)
+
+
 def cmp_atom(op, a, b):
     """the canonical comparison value SymEval produces for `a op b` (op in eq, ne, lt, le, gt, ge)"""
     return SymEval(None).arith(op.capitalize(), a, b)
@@ -1081,10 +1094,7 @@ class SymEval:
             return ("opt", app("bool_to_option", self.arith("Le", args[1], args[0])), args[0] - args[1])
         mm = STD_NUM_RX.match(path or "")
         if mm:
-            name = mm.group(2)
-            if name in ("max", "min") and len(args) == 2 and order_of(vkey(args[0])) > order_of(vkey(args[1])):
-                args = [args[1], args[0]]
-            return app(name, *args)
+            return num_call(mm.group(2), *args)
         cs = self.const_search(path, args)
         if cs is not None:
             return cs
@@ -1193,8 +1203,11 @@ class SymEval:
         r = args[0]
         if not isinstance(r, Poly):
             return None
-        fnlike = lambda x: isinstance(x, tuple) and x and x[0] in ("closure", "fn")
+        fnlike = lambda x: isinstance(x, tuple) and x and (x[0] in ("closure", "fn") or (len(x) == 2 and x[0] == "variant" and x[1] in ("Some", "Ok", "Err")))
         try:
+            if base == "map" and len(args) == 2 and fnlike(args[1]):
+                # r.map(f) = match r { Ok(v) => Ok(f(v)), Err(e) => Err(e) }
+                return build_match(r, [(self.OK_KEY, ("ctor", "Ok", [self.apply(args[1], [app("payload0", r)])])), (self.ERR_KEY, ("ctor", "Err", [app("payload0", r)]))])
             if base == "map_or" and len(args) == 3 and fnlike(args[2]):
                 return build_match(r, [(self.OK_KEY, self.apply(args[2], [app("payload0", r)])), (self.ERR_KEY, args[1])])
             if base == "unwrap_or_else" and len(args) == 2 and fnlike(args[1]):
@@ -1331,6 +1344,8 @@ class SymEval:
             return self.eval(node["body"], cenv)
         if isinstance(fv, tuple) and fv and fv[0] == "fn":
             return self.call_fn(fv[1], None, args, None, {})
+        if isinstance(fv, tuple) and len(fv) == 2 and fv[0] == "variant" and fv[1] in ("Some", "Ok", "Err") and len(args) == 1:
+            return ("ctor", fv[1], list(args))      # a tuple-variant constructor used as a function: .map(Some)
         return app("apply", fv, *args)
 
     def e_mcall(self, n, env):
